@@ -9,6 +9,7 @@ package main
 // named idioms, or it is reported.
 
 import (
+	"go/ast"
 	"fmt"
 	"go/constant"
 	"go/token"
@@ -571,6 +572,20 @@ func (pp *panicProver) nonNegValue(v ssa.Value, depth int) bool {
 			if fa, ok := x.X.(*ssa.FieldAddr); ok {
 				return counterField(pp.p, fa)
 			}
+			// an element of a package-level table of non-negative constants
+			// that is never written
+			if ia, ok := x.X.(*ssa.IndexAddr); ok {
+				var g *ssa.Global
+				switch b := ia.X.(type) {
+				case *ssa.Global:
+					g = b
+				case *ssa.UnOp:
+					g, _ = b.X.(*ssa.Global)
+				}
+				if g != nil && globalTableNonNeg(pp.p, g) {
+					return true
+				}
+			}
 			// an element of a slice field that only ever receives non-negative values
 			if ia, ok := x.X.(*ssa.IndexAddr); ok {
 				if ld, ok := ia.X.(*ssa.UnOp); ok && ld.Op == token.MUL {
@@ -1123,6 +1138,12 @@ func proveAssert(p *Program, fn *ssa.Function, ta *ssa.TypeAssert, three map[str
 				}
 			}
 		}
+		// the same tests spread over several branches (`if op != A && op != B
+		// { return }`): on every edge into the block, or into a block all of
+		// whose paths lead here, one of the tests has succeeded
+		if okLen && operandKnownAt(fn, ta.Block(), opc, operand, three, oc) {
+			return "shape", "every path to the assertion passes a test that leaves only opcodes with an operand (or operand != nil): the walker passes an int for those (code.Length agrees, R-EMITLEN)"
+		}
 		return "fail", "the walker's operand is nil for one-byte opcodes and this assertion is not dominated by a test for an opcode with an operand or by operand != nil"
 	}
 	// (2) dominated by a successful comma-ok assertion or type switch of the same value to the same type
@@ -1577,8 +1598,23 @@ func emitPosition(p *Program, v ssa.Value, emit *ssa.Function, three map[string]
 		}
 		return sites > 0
 	case *ssa.Call:
-		if x.Call.StaticCallee() == emit && len(x.Call.Args) >= 2 {
-			return three[oc.ssaName(x.Call.Args[1])]
+		if a, _ := p.Anchors(); a != nil {
+			if e, ok := emitAt(p, a, x); ok && len(x.Call.Args) >= 2 && x.Call.Signature().Results().Len() == 1 {
+				return three[e.op]
+			}
+			if src := handsBackPosition(p, a, x.Call.StaticCallee()); src != nil && x.Call.Signature().Results().Len() == 1 {
+				return three[src.op]
+			}
+		}
+	case *ssa.Extract:
+		// the first result of a part of the compiler that hands back the
+		// position of an instruction it emitted
+		if cl, ok := x.Tuple.(*ssa.Call); ok && x.Index == 0 {
+			if a, _ := p.Anchors(); a != nil {
+				if src := handsBackPosition(p, a, cl.Call.StaticCallee()); src != nil {
+					return three[src.op]
+				}
+			}
 		}
 	case *ssa.Phi:
 		for _, e := range x.Edges {
@@ -1617,8 +1653,39 @@ func sliceOfEmitPositions(p *Program, s ssa.Value, emit *ssa.Function, three map
 	case *ssa.Slice:
 		return sliceOfEmitPositions(p, x.X, emit, three, oc, depth+1, seen)
 	case *ssa.Alloc:
-		// a zero-length array literal ([]int{})
+		// an array literal or the argument array of a variadic call: every
+		// element stored is such a position (none for []int{})
+		for _, ref := range *x.Referrers() {
+			if ia, ok := ref.(*ssa.IndexAddr); ok {
+				for _, r2 := range *ia.Referrers() {
+					if st, ok := r2.(*ssa.Store); ok && st.Addr == ssa.Value(ia) && !emitPosition(p, st.Val, emit, three, oc, depth+1) {
+						return false
+					}
+				}
+			}
+		}
 		return true
+	case *ssa.Parameter:
+		// a list handed in by the callers: every one of them passes such a list
+		f := x.Parent()
+		idx := -1
+		for i, q := range f.Params {
+			if q == x {
+				idx = i
+			}
+		}
+		sites := 0
+		for _, site := range staticCallSites(p, f) {
+			args := site.Common().Args
+			if idx < 0 || idx >= len(args) {
+				return false
+			}
+			sites++
+			if !sliceOfEmitPositions(p, args[idx], emit, three, oc, depth+1, seen) {
+				return false
+			}
+		}
+		return sites > 0
 	case *ssa.MakeSlice:
 		return true
 	case *ssa.Call:
@@ -1645,21 +1712,81 @@ func sliceOfEmitPositions(p *Program, s ssa.Value, emit *ssa.Function, three map
 // slice of objects, and the site is dominated by a test that the opcode is one
 // whose operand the compiler always takes from the constant pool (R-CONSTREF).
 func (pp *panicProver) constRefShape(index, base ssa.Value) string {
-	if !isWalkerCallback(pp.fn) {
-		return ""
-	}
 	sl, ok := base.Type().Underlying().(*types.Slice)
 	if !ok || !isObjectIface(sl.Elem()) {
 		return ""
 	}
+	if why := constRefAt(pp.p, pp.fn, index); why != "" {
+		return why
+	}
+	// the index is a parameter: every caller is a visitor that passes the
+	// operand of a constant-referencing instruction, for the same receiver
+	prm, ok := index.(*ssa.Parameter)
+	if !ok || prm.Parent() != pp.fn || pp.fn.Signature.Recv() == nil {
+		return ""
+	}
+	ld, ok := base.(*ssa.UnOp)
+	if !ok {
+		return ""
+	}
+	fa, ok := ld.X.(*ssa.FieldAddr)
+	if !ok || fa.X != ssa.Value(pp.fn.Params[0]) {
+		return ""
+	}
+	k := -1
+	for i, q := range pp.fn.Params {
+		if q == prm {
+			k = i
+		}
+	}
+	sites, why := 0, ""
+	for g := range ssautil.AllFunctions(pp.fn.Prog) {
+		for _, b := range g.Blocks {
+			for _, ins := range b.Instrs {
+				for _, op := range ins.Operands(nil) {
+					if *op == ssa.Value(pp.fn) {
+						if cc := callOf(ins); cc == nil || cc.Value != ssa.Value(pp.fn) {
+							return "" // used as a value
+						}
+					}
+				}
+				c, ok := staticCalleeIs(ins, pp.fn)
+				if !ok {
+					continue
+				}
+				sites++
+				if len(g.Params) == 0 || c.Call.Args[0] != ssa.Value(g.Params[0]) || k >= len(c.Call.Args) {
+					return ""
+				}
+				w := constRefAt(pp.p, g, c.Call.Args[k])
+				if w == "" {
+					return ""
+				}
+				why = w
+			}
+		}
+	}
+	if sites == 0 {
+		return ""
+	}
+	return fmt.Sprintf("at each of its %d call site(s) the index is %s", sites, why)
+}
+
+// constRefAt: in the visitor fn, index is the operand asserted to an integer
+// under a test that the opcode is one whose operand the compiler takes from
+// the constant pool.
+func constRefAt(p *Program, fn *ssa.Function, index ssa.Value) string {
+	if !isWalkerCallback(fn) {
+		return ""
+	}
 	ta, ok := index.(*ssa.TypeAssert)
-	operand := pp.fn.Params[len(pp.fn.Params)-1]
+	operand := fn.Params[len(fn.Params)-1]
 	if !ok || ta.X != ssa.Value(operand) {
 		return ""
 	}
-	refs := constRefOpcodes(pp.p)
-	opc := pp.fn.Params[len(pp.fn.Params)-2]
-	oc := pp.p.Opcodes()
+	refs := constRefOpcodes(p)
+	opc := fn.Params[len(fn.Params)-2]
+	oc := p.Opcodes()
 	var site ssa.Instruction = ta
 	for cur := site.Block(); cur.Idom() != nil; cur = cur.Idom() {
 		d := cur.Idom()
@@ -1782,4 +1909,118 @@ func ruleConstRef(p *Program, r *Reporter) {
 			}
 		}
 	}
+}
+
+// operandKnownAt: greatest fixpoint of "on entry to the block the visitor's
+// operand is known to be present": true for a block when every edge into it
+// either comes from a block where it is known or is the branch of a test
+// (opcode == one with an operand, opcode != ... on the false side, operand !=
+// nil) that establishes it.
+func operandKnownAt(fn *ssa.Function, at *ssa.BasicBlock, opc, operand ssa.Value, three map[string]bool, oc *opcodes) bool {
+	edgeImplies := func(from *ssa.BasicBlock, succIdx int) bool {
+		iff, ok := terminator(from).(*ssa.If)
+		if !ok {
+			return false
+		}
+		bo, ok := iff.Cond.(*ssa.BinOp)
+		if !ok {
+			return false
+		}
+		if (bo.X == operand && isNilConst(bo.Y)) || (bo.Y == operand && isNilConst(bo.X)) {
+			return (bo.Op == token.NEQ && succIdx == 0) || (bo.Op == token.EQL && succIdx == 1)
+		}
+		var other ssa.Value
+		if stripConvSSA(bo.X) == opc {
+			other = bo.Y
+		} else if stripConvSSA(bo.Y) == opc {
+			other = bo.X
+		}
+		if other == nil {
+			return false
+		}
+		name := oc.ssaName(other)
+		return name != "" && three[name] && ((bo.Op == token.EQL && succIdx == 0) || (bo.Op == token.NEQ && succIdx == 1))
+	}
+	known := map[*ssa.BasicBlock]bool{}
+	for _, b := range fn.Blocks {
+		known[b] = b != fn.Blocks[0]
+	}
+	for changed := true; changed; {
+		changed = false
+		for _, b := range fn.Blocks {
+			if !known[b] {
+				continue
+			}
+			for _, pd := range b.Preds {
+				ok := known[pd]
+				if !ok {
+					for i, sc := range pd.Succs {
+						if sc == b && edgeImplies(pd, i) {
+							ok = true
+						}
+					}
+					// both branches of the test lead to b: only one implies
+					if len(pd.Succs) == 2 && pd.Succs[0] == pd.Succs[1] {
+						ok = false
+					}
+				}
+				if !ok {
+					known[b] = false
+					changed = true
+					break
+				}
+			}
+		}
+	}
+	return known[at]
+}
+
+// globalTableNonNeg: g is an array or slice written as a composite literal of
+// non-negative integer constants (unlisted elements are zero) and never
+// written afterwards.
+func globalTableNonNeg(p *Program, g *ssa.Global) bool {
+	if g.Object() == nil || g.Pkg == nil {
+		return false
+	}
+	switch g.Object().Type().Underlying().(type) {
+	case *types.Array, *types.Slice:
+	default:
+		return false
+	}
+	pk := p.ByPath[g.Pkg.Pkg.Path()]
+	if pk == nil || !globalNeverWritten(p, g) {
+		return false
+	}
+	for _, f := range pk.Syntax {
+		for _, d := range f.Decls {
+			gd, ok := d.(*ast.GenDecl)
+			if !ok || gd.Tok != token.VAR {
+				continue
+			}
+			for _, sp := range gd.Specs {
+				vs := sp.(*ast.ValueSpec)
+				for i, nm := range vs.Names {
+					if pk.TypesInfo.Defs[nm] != g.Object() || i >= len(vs.Values) {
+						continue
+					}
+					cl, ok := vs.Values[i].(*ast.CompositeLit)
+					if !ok {
+						return false
+					}
+					for _, el := range cl.Elts {
+						v := el
+						if kv, ok := el.(*ast.KeyValueExpr); ok {
+							v = kv.Value
+						}
+						tv, has := pk.TypesInfo.Types[v]
+						if !has || tv.Value == nil || tv.Value.Kind() != constant.Int || constant.Sign(tv.Value) < 0 {
+							return false
+						}
+					}
+					return true
+				}
+			}
+		}
+	}
+	return false
 }
